@@ -259,6 +259,12 @@ def misc_family():
                 nodes.append(H.make_node("Identity", ["r"], ["y"], name="Id"))
                 oshape = rshape
             yield f"M/transpose_reducemean/keep={keep}/axes={axes}", _model(nodes, [_vi("in_0", F, [2, 3, 4, 5])], [_vi("y", F, oshape)], inits)
+            if keep:
+                # the reduced value / the first transpose are ALSO graph outputs (observed intermediates)
+                yield (f"M/transpose_reducemean/keep={keep}/axes={axes}/r_observed",
+                       _model(nodes, [_vi("in_0", F, [2, 3, 4, 5])], [_vi("y", F, oshape), _vi("r", F, rshape)], inits))
+                yield (f"M/transpose_reducemean/keep={keep}/axes={axes}/t1_observed",
+                       _model(nodes, [_vi("in_0", F, [2, 3, 4, 5])], [_vi("y", F, oshape), _vi("t1", F, [2, 5, 3, 4])], inits))
     # add forest: Add(T(a), T(b)) -> T^-1, with outputs also observed
     for observed in (False, True):
         for second in ("T", "plain"):
